@@ -1,0 +1,117 @@
+//go:build verif
+
+// Contracts (machine-checked by /verif/engine, see /verif/DESIGN.md). Comment-only file.
+package tablist
+
+// ---- C28: the tab list model is what the client was told -----------------------------------------------------------
+// The entry map is only touched under the tab list's lock.
+//@ guarded_by TabList.RWMutex : EntriesByID
+
+// Add: an entry for which nothing has to be sent (add returned no packet, or an empty action set) is skipped - never
+// dereferenced; everything else is buffered to the viewer, and a flush follows iff something was buffered.
+//@ func (*TabList).Add
+//@   props C28
+//@   checks default nil
+//@   loop 1: invariant rangeindex >= -1 && rangeindex < len(entries) && (flush ==> called(buf))
+//@   at-call add as one: assert arg0 == t
+//@   at-call BufferPacket as buf: assert [only-real-changes-are-sent] called(one) && res(one, 1) == nil && res(one, 0) != nil && len(res(one, 0).ActionSet) != 0 && arg0 == t.Viewer && ref(arg1) == res(one, 0)
+//@   at-call Flush as fl: assert [flush-after-buffering] called(buf)
+
+// add: the model is updated under the lock, under the entry's own profile id. For a known id every attribute of the old
+// and the new entry is compared, and each attribute that differs puts its action into the packet (display name, latency,
+// game mode, listed; list order from 1.21.2, hat from 1.21.4); an unchanged entry sends nothing. A new id is announced
+// with ADD_PLAYER + latency + listed, plus display name / game mode / list order / hat when they are not the defaults.
+//@ func (*TabList).add
+//@   props C28
+//@   at-call mapupdate:EntriesByID as put: assert [model-updated-under-the-lock] held(t.RWMutex) == wlocked && arg0 == t.EntriesByID && arg1 == playerInfoEntry.ProfileID && arg2 == entry
+//@   at-call equalLocked as same: assert arg0 == previousEntry && arg1 == entry && previousEntry != nil
+//@   at-call DeepEqual#1 as dn
+//@   at-call append#1 as aDN: assert [display-name-action-iff-it-differs] called(dn) && !res(dn) && len(arg1) == 1 && arg1[0] == playerinfo.UpdateDisplayNameAction
+//@   at-call Latency#1 as pl: assert arg0 == previousEntry
+//@   at-call Latency#2 as nl: assert arg0 == entry
+//@   at-call append#2 as aLat: assert [latency-action-iff-it-differs] called(pl) && called(nl) && res(pl) != res(nl) && len(arg1) == 1 && arg1[0] == playerinfo.UpdateLatencyAction
+//@   at-call GameMode#2 as pg: assert arg0 == previousEntry
+//@   at-call GameMode#3 as ng: assert arg0 == entry
+//@   at-call append#3 as aGM: assert [game-mode-action-iff-it-differs] called(pg) && called(ng) && res(pg) != res(ng) && len(arg1) == 1 && arg1[0] == playerinfo.UpdateGameModeAction
+//@   at-call Listed#2 as pli: assert arg0 == previousEntry
+//@   at-call Listed#3 as nli: assert arg0 == entry
+//@   at-call append#4 as aLi: assert [listed-action-iff-it-differs] called(pli) && called(nli) && res(pli) != res(nli) && len(arg1) == 1 && arg1[0] == playerinfo.UpdateListedAction
+//@   at-call append#5 as aLO: assert len(arg1) == 1 && arg1[0] == playerinfo.UpdateListOrderAction
+//@   at-call append#6 as aHat: assert len(arg1) == 1 && arg1[0] == playerinfo.UpdateHatAction
+//@   at-call append#8 as aNew: assert [new-entry-is-announced] previousEntry == nil && len(arg1) == 3 && arg1[0] == playerinfo.AddPlayerAction && arg1[1] == playerinfo.UpdateLatencyAction && arg1[2] == playerinfo.UpdateListedAction
+//@   ensures [zero-id-is-refused] !called(put) ==> result.0 == nil && result.1 != nil
+//@   ensures [unchanged-entry-sends-nothing] called(same) && res(same) ==> result.0 == nil && result.1 == nil
+//@   ensures [every-attribute-of-a-known-entry-is-compared] called(same) && !res(same) ==> called(dn) && called(pl) && called(nl) && called(pg) && called(ng) && called(pli) && called(nli)
+//@   ensures [differing-display-name-is-sent] called(dn) && !res(dn) ==> called(aDN)
+//@   ensures [differing-latency-is-sent] called(pl) && called(nl) && res(pl) != res(nl) ==> called(aLat)
+//@   ensures [differing-game-mode-is-sent] called(pg) && called(ng) && res(pg) != res(ng) ==> called(aGM)
+//@   ensures [differing-listed-is-sent] called(pli) && called(nli) && res(pli) != res(nli) ==> called(aLi)
+//@   ensures [new-entry-is-announced] called(put) && !called(same) ==> called(aNew)
+//@   ensures [a-packet-for-one-entry] called(put) && !(called(same) && res(same)) ==> result.0 != nil && result.1 == nil && len(result.0.Entries) == 1 && result.0.Entries[0] == playerInfoEntry
+
+// Backend updates: the map is read and written under the lock the caller holds; ADD creates the entry once under its id
+// (an existing one is kept), a partial update for an unknown id is ignored, and each action present in the packet is
+// applied to the model through its own setter (game mode, latency, display name, chat session, listed, list order, hat).
+//@ func (*TabList).ProcessUpdate
+//@   props C28
+//@   loop 1: invariant held(t.RWMutex) == wlocked && rangeindex >= -1 && rangeindex < len(old(info.Entries))
+//@   at-call processUpdateForEntry as one: assert held(t.RWMutex) == wlocked && arg0 == t && ref(arg1) == ref(info.ActionSet) && len(arg1) == len(info.ActionSet)
+//@ func (*TabList).processUpdateForEntry
+//@   props C28
+//@   requires held(t.RWMutex) == wlocked
+//@   at-call ContainsAction#1 as cAdd: assert ref(arg0) == ref(actions) && arg1 == playerinfo.AddPlayerAction
+//@   at-call mapupdate:EntriesByID as create: assert [add-creates-a-missing-entry-under-its-id] called(cAdd) && res(cAdd) && arg0 == t.EntriesByID && arg1 == info.ProfileID && currentEntry != nil
+//@   at-call ContainsAction#2 as cGM: assert arg1 == playerinfo.UpdateGameModeAction
+//@   at-call ContainsAction#3 as cLat: assert arg1 == playerinfo.UpdateLatencyAction
+//@   at-call ContainsAction#4 as cDN: assert arg1 == playerinfo.UpdateDisplayNameAction
+//@   at-call ContainsAction#5 as cChat: assert arg1 == playerinfo.InitializeChatAction
+//@   at-call ContainsAction#6 as cLi: assert arg1 == playerinfo.UpdateListedAction
+//@   at-call ContainsAction#7 as cLO: assert arg1 == playerinfo.UpdateListOrderAction
+//@   at-call ContainsAction#8 as cHat: assert arg1 == playerinfo.UpdateHatAction
+//@   at-call doInternalEntity#1 as sGM: assert called(cGM) && res(cGM) && arg0 == currentEntry
+//@   at-call doInternalEntity#2 as sLat: assert called(cLat) && res(cLat) && arg0 == currentEntry
+//@   at-call doInternalEntity#3 as sDN: assert called(cDN) && res(cDN) && arg0 == currentEntry
+//@   at-call doInternalEntity#4 as sChat: assert called(cChat) && res(cChat) && arg0 == currentEntry
+//@   at-call doInternalEntity#5 as sLi: assert called(cLi) && res(cLi) && arg0 == currentEntry
+//@   at-call doInternalEntity#6 as sLO: assert called(cLO) && res(cLO) && arg0 == currentEntry
+//@   at-call doInternalEntity#7 as sHat: assert called(cHat) && res(cHat) && arg0 == currentEntry
+//@   ensures [every-action-in-the-packet-reaches-the-model] called(cGM) ==> called(cLat) && called(cDN) && called(cChat) && called(cLi) && called(cLO) && called(cHat) && (res(cGM) == called(sGM)) && (res(cLat) == called(sLat)) && (res(cDN) == called(sDN)) && (res(cChat) == called(sChat)) && (res(cLi) == called(sLi)) && (res(cLO) == called(sLO)) && (res(cHat) == called(sHat))
+//@   ensures [partial-update-for-an-unknown-id-is-ignored] called(cAdd) && !res(cAdd) && currentEntry == nil ==> !called(cGM) && result == nil
+// Each setter closure hands over the value from the packet.
+//@ func (*TabList).processUpdateForEntry$1
+//@   props C28
+//@   at-call SetGameModeInternal as set: assert arg0 == e && arg1 == info.GameMode
+//@   ensures called(set)
+//@ func (*TabList).processUpdateForEntry$2
+//@   props C28
+//@   at-call SetLatencyInternal as set: assert arg0 == e && arg1 == info.Latency * 1000000
+//@   ensures called(set)
+//@ func (*TabList).processUpdateForEntry$5
+//@   props C28
+//@   at-call SetListedInternal as set: assert arg0 == e && arg1 == info.Listed
+//@   ensures called(set)
+//@ func (*TabList).processUpdateForEntry$6
+//@   props C28
+//@   at-call SetListOrderInternal as set: assert arg0 == e && arg1 == info.ListOrder
+//@   ensures called(set)
+//@ func (*TabList).processUpdateForEntry$7
+//@   props C28
+//@   at-call SetShowHatInternal as set: assert arg0 == e && arg1 == info.ShowHat
+//@   ensures called(set)
+
+// Removals: exactly the ids of the packet leave the model, under the lock.
+//@ func (*TabList).ProcessRemove
+//@   props C28
+//@   loop 1: invariant held(t.RWMutex) == wlocked && rangeindex >= -1 && rangeindex < len(info.PlayersToRemove)
+//@   at-call delete:EntriesByID as del: assert held(t.RWMutex) == wlocked && arg0 == t.EntriesByID && arg1 == entry
+//@ func (*TabList).deleteEntries
+//@   props C28
+//@   loop 2: invariant held(t.RWMutex) == wlocked && rangeindex >= -1 && rangeindex < len(ids)
+//@   at-call delete:EntriesByID as del: assert held(t.RWMutex) == wlocked && arg0 == t.EntriesByID
+//@ func (*TabList).Entries
+//@   props C28
+//@ func (*TabList).RemoveAll
+//@   props C28
+//@   at-call deleteEntries as del: assert arg0 == t && ref(arg1) == ref(ids) && len(arg1) == len(ids)
+//@   at-call BufferPacket as send: assert [the-client-is-told-exactly-what-was-removed] called(del) && len(res(del)) != 0 && dyntype(arg1, "playerinfo.Remove") && ref(cast(arg1, *playerinfo.Remove).PlayersToRemove) == ref(res(del)) && len(cast(arg1, *playerinfo.Remove).PlayersToRemove) == len(res(del))
+//@   ensures [removed-entries-are-announced] called(del) && (len(res(del)) != 0 ==> called(send))
